@@ -129,6 +129,23 @@ theorem no_unrecoverable_loss (cfg : Cfg) (hf : cfg.force = false) (hp : cfg.pro
         rw [heq2] at hw
         split <;> exact hw k f h0
 
+/-- **C05 (as called).** The same for `checkoutFrom`, which first reads the existing workspace: when that fails (a link
+    to nothing among its files) the error is passed on with the workspace exactly as it was — the files of a workspace
+    that could not be read are never taken for absent and written over. -/
+theorem no_unrecoverable_loss_from (cfg : Cfg) (hf : cfg.force = false) (hp : cfg.prompt ≠ some true)
+    (cache : List Oid) (ws : Ws) (broken : Bool) (target : Target) (delOrder workOrder : List Key) (k : Key) (f : WFile)
+    (h0 : ws.lookup k = some f) :
+    (checkoutFrom cfg cache ws broken target delOrder workOrder).ws.lookup k = some f ∨ inCache cache f.oid = true := by
+  unfold checkoutFrom
+  cases broken with
+  | true => exact Or.inl h0
+  | false => exact no_unrecoverable_loss cfg hf hp cache ws target delOrder workOrder k f h0
+
+/-- an unreadable workspace is left exactly as it was, forced or not -/
+theorem unreadable_untouched (cfg : Cfg) (cache : List Oid) (ws : Ws) (target : Target) (delOrder workOrder : List Key) :
+    (checkoutFrom cfg cache ws true target delOrder workOrder).ws = ws ∧
+    (checkoutFrom cfg cache ws true target delOrder workOrder).outcome = .unreadable := ⟨rfl, rfl⟩
+
 /-- when a removal is refused the file named by the error is untouched -/
 theorem prompt_error_leaves_file (cfg : Cfg) (cache : List Oid) : ∀ (ks : List Key) (w : Ws) (k : Key),
     (delAll cfg cache ks w).1 = some k →
